@@ -53,10 +53,17 @@ static inline void out_push_back(OUT_STR* s, char c)
   s->nw++;
   s->size++;
 }
+/* frame of appends (assigns-clause targets) and the window fill, for loop contracts written once for both models */
+#define OUT_ASSIGNS(s) (s)->size, (s)->nw, (s)->first, __CPROVER_object_upto((s)->w, C09_WIN)
+#define OUT_ASSIGNS_NONEMPTY(s) (s)->size, (s)->nw, __CPROVER_object_upto((s)->w, C09_WIN)      /* appends to a non-empty string keep byte 0 */
+#define OUT_WINDOW_LE(s, n) ((s)->nw <= (n))
 /* a new iteration of the parser's loop starts a new window (used by the loop skeleton in front of the step call) */
 #define C09_WINDOW_RESET(s) do { if ((s) != 0) (s)->nw = 0; } while (0)
 #else
 #define C09_WINDOW_RESET(s) do { } while (0)
+#define OUT_ASSIGNS(s) (s)->size, __CPROVER_object_whole((s)->data)
+#define OUT_ASSIGNS_NONEMPTY(s) (s)->size, __CPROVER_object_whole((s)->data)
+#define OUT_WINDOW_LE(s, n) 1
 typedef vstr OUT_STR;
 #define out_size vstr_size
 #define out_clear vstr_clear
